@@ -35,6 +35,9 @@ def _blocks():
     B['w1t@4'] = [(sp(4) + 'out1   ', 'other')]          # a want line ending in blanks
     B['w1@8'] = [(sp(8) + 'deeper out', 'other')]
     B['wdots@4'] = [(sp(4) + '...', 'bare')]
+    # a bare '...' followed by a line that starts with '... ': two want lines after a complete statement (the wildcard and a
+    # line of output that happens to start with dots), two continuation lines inside an open '...' block
+    B['wdots2@4'] = [(sp(4) + '...', 'bare'), (sp(4) + '... tail', 'dotsline')]
     B['tabs1'] = [('\t>>> t = 1', 'prompt')]
     B['tabw'] = [('\tout tab', 'other')]
     return B
@@ -42,7 +45,7 @@ def _blocks():
 
 BLOCKS = _blocks()
 NAMES = ['s1@4', 'w1@4', 'blank', 'prose@4', 'prose@0', 'prose@8', 'tag@4', 's1@0', 's1@8', 's2@4', 's2d@4',
-         's2dt@4', 'sstr@4', 'w2@4', 'w1@8', 'wdots@4', 'tabs1', 'tabw', 's2u@4', 'sstrd@4', 'w1t@4']
+         's2dt@4', 'sstr@4', 'w2@4', 'w1@8', 'wdots@4', 'tabs1', 'tabw', 's2u@4', 'sstrd@4', 'w1t@4', 'wdots2@4']
 assert set(NAMES) == set(BLOCKS)
 DEFAULT = {'s1@4', 'w1@4', 'blank', 'prose@4'}
 
@@ -66,6 +69,9 @@ def label_lines(blocks):
                 if kind == 'prompt' and first and (prev in ('text', 'want') or flag):
                     src_indent = ind
                 newprev = 'cont' if kind == 'cont' else 'prompt'
+            elif kind == 'dotsline' and prev in ('prompt', 'cont') and ind >= src_indent:
+                lab = 'src'
+                newprev = 'cont'
             elif kind == 'blank':
                 lab = 'text'
                 newprev = 'text'
@@ -195,6 +201,17 @@ class LabelSpec(Spec):
                 if not ok:
                     atoms.append({'sig': 'partition:content', 'msg': 'line %d: docstring %r, part holds %r' % (i, el, gl)})
                     break
+            else:
+                # what is executed is the source lines minus their 4 prompt columns (un-prompted lines of a string literal are
+                # aligned with the code column), nothing more and nothing less
+                for pi, p in enumerate(parts):
+                    if isinstance(p, str):
+                        continue
+                    exp_exec = [l[4:] for l in p.orig_lines]
+                    got_exec = list(p.exec_lines)
+                    if [x.rstrip() for x in got_exec] != [x.rstrip() for x in exp_exec]:
+                        atoms.append({'sig': 'partition:executable-lines', 'msg': 'part %d: source lines %r, executable lines %r' % (pi, p.orig_lines, got_exec)})
+                        break
         return {'atoms': atoms[:3], 'outcome': ''.join(l[0] for l in glabels)[:12], 'case': case,
                 'nontrivial': nontrivial}
 
